@@ -109,7 +109,7 @@ def parse_unit(path):
                           nth=int(kv['nth']) if 'nth' in kv else None,
                           dropped_fields=[x for x in kv.get('dropped_fields', '').split(',') if x],
                           loops={}, directives=[], unit_line=ln, indent=kv.get('indent', ''),
-                          sig_subst=[])
+                          sig_subst=[], optional=bool(kv.get('optional')))
             sec = ('none', None)
         elif word == 'endfn':
             unit['chunks'].append(('fn', cur_fn, ln))
@@ -224,7 +224,13 @@ def assemble(repo, unit):
                 origins.append(('unit', start + k))
         else:
             _, f, ln = ch
-            r = extract_fn(repo, f)
+            try:
+                r = extract_fn(repo, f)
+            except ExtractError as e:
+                if f.get('optional') and 'anchor lost: fn' in str(e):
+                    log.append(f"{f['name']}: optional helper not present in the tree ({e}); block skipped")
+                    continue
+                raise
             first = len(out_lines) + 1
             ind = f.get('indent') or ''
             for k, l in enumerate(r['text'].rstrip('\n').split('\n')):
